@@ -31,6 +31,10 @@ let string_of_n (x : n) : string =
       digits := List.map (fun d -> let v = 2 * d + !carry in carry := v / 10; v mod 10) !digits;
       if !carry > 0 then digits := !digits @ [!carry]) bs;
     String.concat "" (List.rev_map string_of_int !digits)
+let string_of_z (x : z) : string =
+  match x with Z0 -> "0" | Zpos p -> string_of_n (Npos p) | Zneg p -> "-" ^ string_of_n (Npos p)
+let string_of_bytes (l : n list) : string =
+  String.init (List.length l) (fun i -> Char.chr (int_of_n (List.nth l i)))
 let n_of_string (s : string) : n =
   (* decimal -> N via repeated doubling on strings would be slow; values fit 64 bits: use Int64 unsigned halves *)
   let hi = ref N0 in
